@@ -8,7 +8,9 @@ import "crypto/sha256"
 
 func refPair(src, dst string) string { return src + "/" + dst }
 
-func refNextSeqSendKey(src, dst string) []byte { return []byte("nextSequenceSend/" + refPair(src, dst)) }
+func refNextSeqSendKey(src, dst string) []byte {
+	return []byte("nextSequenceSend/" + refPair(src, dst))
+}
 func refCommitmentKey(src, dst string, seq uint64) []byte {
 	return []byte("commitments/" + refPair(src, dst) + "/sequences/" + decimal(seq))
 }
